@@ -11,6 +11,7 @@ type OptDecl struct {
 	Flag   bool     // bool flag
 	Multi  bool
 	EnvSet bool // backed by a set, valid env var
+	Int    bool // typed declaration: values must be base-10 integers (trees of C07)
 }
 
 func (o *OptDecl) Dashed() []string {
@@ -28,6 +29,7 @@ func (o *OptDecl) Dashed() []string {
 type ArgDecl struct {
 	Name  string
 	Multi bool
+	Int   bool
 }
 
 type Prog struct {
